@@ -355,6 +355,11 @@ def run_async(case, max_steps=400):
                         # -k: the same virtual instant, but k turns of the event loop later
                         for _ in range(int(-gap)):
                             await asyncio.sleep(0)
+                    if e == '!call':
+                        # a lifecycle call placed in the producer's timeline: v = [node id, 'start' | 'stop']
+                        log.add('EDIT', 'call', v[0], v[1])
+                        getattr(S[v[0]], v[1])()
+                        continue
                     if e == '!disconnect':
                         # a graph edit placed in the producer's timeline: v = [upstream id, downstream id]
                         log.add('EDIT', 'disconnect', v[0], v[1])
@@ -832,6 +837,8 @@ def check_c05(case, counters, sets):
     counters['counters_expected_zero'] = counters.get('counters_expected_zero', 0) + (n_cmp - n_held)
     counters['counters_expected_held'] = counters.get('counters_expected_held', 0) + n_held
     counters['async_runs_settled'] = counters.get('async_runs_settled', 0) + 1
+    if any(e[2] == 'EDIT' and e[3] == 'call' for e in log.ev):
+        counters['async_runs_with_map_async_stopped_or_restarted'] = counters.get('async_runs_with_map_async_stopped_or_restarted', 0) + 1
     counters['ref_events_observed'] = counters.get('ref_events_observed', 0) + sum(1 for e in log.ev if e[2] == 'REF')
     for s in case['prog']['nodes']:
         sets.setdefault('node_types_seen', set()).add(s['op'] + ('+timeout' if is_async_partition(s) else ''))
